@@ -188,6 +188,71 @@ HIST = {
 }
 
 
+# behaviour-preserving refactors (every check listed in the meta must exit 0)
+E = {
+ "E-C01-1": "binary_operator.h: common exponent / shifts computed through a named `_lhs_is_coarser`, template parameters reordered, local alias for the aligned operator",
+ "E-C03-1": "elastic comparison: helper cast_to_common_type inlined, common_elastic_type_t alias",
+ "E-C05-1": "elastic policy: `a | b` -> `(a || b) ? 1 : 0`, contribution() extracted to a namespace-scope helper, std::max written out",
+ "E-C06-1": "is_overflow shift_left predicates: nested ?: -> early-return ifs",
+ "E-C07-1": "intrinsic-path dispatch: switch on polarity -> const local + if chain, local alias for the common tag",
+ "E-C08-1": "tie_to_pos_inf divide: the shared magnitude hoisted out of the two ?: arms (LLVM then emits llvm.abs)",
+ "E-C09-1": "rounding/convert_operator.h: floor -> floor_int -> floor_residual helper chain collapsed into one function",
+ "E-C11-1": "wrapper binary_arithmetic_operator.h: tag / rep types named through local aliases",
+ "E-C13-1": "to_chars_positive: std::tuple comparison written as named boolean comparisons (negations kept)",
+ "E-C14-1": "to_chars_positive: std::tuple comparison written as named boolean comparisons (negations dropped)",
+ "E-C15-1": "parse.h: ?: -> if, bool subtraction -> conditional, switch on the sign character -> boolean arithmetic",
+ "E-C16-1": "fraction ordering operators: ?: -> if/return",
+ "E-C18-1": "countl_rb: tag-dispatch struct -> if constexpr",
+ "E-C19-1": "integer sqrt: while -> for, root + bit hoisted into `trial`",
+ "E-C01-3": "binary_operator.h: `_lhs_is_coarser` named constant, specialisations reordered, unary operator inherits the Operator",
+ "E-C02-3": "scaled/definition.h: finer_exponent helper, named result_exponent, `return {}`",
+ "E-C03-3": "elastic operators.h: widened_scaled_integer alias, compare_aligned helper",
+ "E-C04-3": "scaled_integer/convert_operator.h: named locals shift / value / factor / widened in every branch",
+ "E-C05-3": "elastic_tag policy / custom_operator: nested std::max, `|` -> `? 1 : 0`, contribution() as if/return, operands bound to named const locals",
+ "E-C16-3": "fraction ordering: ?: -> if, cross products bound to locals",
+ "E-C02-2": "named.h: result-type computation of quotient extracted into a traits class, std::max written out",
+ "E-C04-2": "convert_operator.h: cross-radix steps through a mutate-in-place helper `rescale`, same-radix path through named locals",
+ "E-C05-2": "elastic_integer/custom_operator.h: `|` -> `||`, aliases for result types, hoisted locals in bitwise_not and the comparison",
+ "E-C06-2": "polarity.h / builtin_overflow.h / custom_operator.h (GCC path): ?: -> if chains, switch -> if chain, duplicated overflow_operator call extracted into handle_overflow<Polarity>",
+ "E-C07-2": "is_overflow shift_left and divide predicates: nested ?: -> nested ifs with a named `shifted_out`, `C ? A : false` -> `C && A`",
+ "E-C08-2": "neg_inf divide: helpers inlined, remainder hoisted, ?: -> if; nearest divide: bias extracted into a helper",
+ "E-C09-2": "scaled_integer/convert_operator.h: bias() helper for nearest, named shift count for tie / neg_inf",
+ "E-C11-2": "wide-integer.h round_up_to_multiple helper; wide_tag_rep as a constrained partial specialisation; numeric_limits shift hoisted into a helper",
+ "E-C12-2": "custom_operator/definition.h compound assignment split into named steps; comparison_operator.h converted operands bound to locals",
+ "E-C13-2": "to_chars.h: std::max/min written out, num_chars_truncated helper, fill loops for -> while and while(!isdigit(*out++ = *in++)) -> for(;;) with break",
+ "E-C14-2": "descale: the two oob lambdas merged into one capturing closure; the two early-continue branches of the positive-exponent loop merged",
+ "E-C15-2": "parse.h: strlen while -> for, parse_int64 loop restructured with continue, hoisted locals",
+ "E-C18-2": "numeric.h trailing_bits tag-dispatch -> if constexpr; used_digits_signed<true> ?: -> if with a hoisted function object",
+ "E-C19-2": "sqrt: start bit `(d-1) & ~1` -> `t - (t & 1)`, both loops while -> for, result types through named constants",
+}
+
+
+def e_rows():
+    rows = index_rows_all()
+    out = []
+    for eid, what in sorted(E.items()):
+        d = os.path.join(VERIF, "seeded", eid)
+        if not os.path.isdir(d):
+            continue
+        m = json.load(open(os.path.join(d, "meta.json")))
+        m["summary"] = what
+        json.dump(m, open(os.path.join(d, "meta.json"), "w"), indent=1)
+        rr = rows.get(eid, {})
+        out.append((eid, m.get("property"), what, ", ".join(m.get("checks", [])), rr.get("reported_by", ""), rr.get("analysis_broken", ""), rr.get("silent", "")))
+    return out
+
+
+def index_rows_all():
+    rows = {}
+    p = os.path.join(VERIF, "seeded", "INDEX.md")
+    if os.path.exists(p):
+        for l in open(p):
+            c = [x.strip() for x in l.strip().strip("|").split("|")]
+            if len(c) >= 6 and c[0][:2] in ("M-", "E-"):
+                rows[c[0]] = dict(reported_by=c[3], analysis_broken=c[4], silent=c[5])
+    return rows
+
+
 def index_rows():
     rows = {}
     for f in ("INDEX.md", "INDEX.all.md"):
@@ -229,6 +294,10 @@ def main():
         f.write("| change | property | what was changed | what it needs to manifest | confirmed | reported by (violations, quick tier) | history |\n|---|---|---|---|---|---|---|\n")
         for m in rows:
             f.write("| %s | %s | %s | %s | %s | %s | %s |\n" % (m["id"], m["property"], m["summary"].replace("|", "/"), m["needs_to_manifest"].replace("|", "/"), m["status"], m["detected_by"], m["history"].replace("|", "/")))
+    with open(os.path.join(VERIF, "seeded", "TABLE.equiv.md"), "w") as f:
+        f.write("| change | anchored in | what was refactored | checks run | exit 1 | exit 2 | exit 0 |\n|---|---|---|---|---|---|---|\n")
+        for row in e_rows():
+            f.write("| %s | %s | %s | %s | %s | %s | %s |\n" % tuple(str(x).replace("|", "/") for x in row))
 
 
 if __name__ == "__main__":
